@@ -705,6 +705,7 @@ func (em *emitter) emitSelect(selectNode *ast.Select) {
 	em.fb.enterStack()
 
 	chs := make([]int8, len(selectNode.Cases))
+	sendValue := make([]int8, len(selectNode.Cases))
 	ok := em.fb.newRegister(reflect.Bool)
 	value := [4]int8{
 		intRegister:     em.fb.newRegister(reflect.Int),
@@ -731,7 +732,8 @@ func (em *emitter) emitSelect(selectNode *ast.Select) {
 			chType := em.typ(chExpr)
 			elemType := chType.Elem()
 			chs[i] = em.emitExpr(chExpr, chType)
-			em.emitExprR(cas.Value, elemType, value[kindToType(elemType.Kind())])
+			sendValue[i] = em.fb.newRegister(elemType.Kind())
+			em.emitExprR(cas.Value, elemType, sendValue[i])
 		}
 	}
 
@@ -754,10 +756,7 @@ func (em *emitter) emitSelect(selectNode *ast.Select) {
 			em.fb.emitCase(false, reflect.SelectRecv, value[kindToType(elemType.Kind())], chs[i])
 		case *ast.Send:
 			// ch <- v
-			chExpr := comm.Channel
-			chType := em.typ(chExpr)
-			elemType := chType.Elem()
-			em.fb.emitCase(false, reflect.SelectSend, value[kindToType(elemType.Kind())], chs[i])
+			em.fb.emitCase(false, reflect.SelectSend, sendValue[i], chs[i])
 		}
 		em.fb.emitGoto(casesLabel[i])
 	}
